@@ -86,11 +86,34 @@ def popLast (h : Heap) (c : Cont) : Heap × Cont :=
       else (h1.setVals p.2 nv, c)
     | none => (h1, c)
 
+/-- `extend(pairs)`: `self.append(key, value)` for each pair in turn -/
+def appendAll (h : Heap) (c : Cont) : List (K × V) → Heap × Cont
+  | [] => (h, c)
+  | (k, v) :: r => let (h1, c1) := append h c k v; appendAll h1 c1 r
+
+/-- `update(pairs)` (`MutableMapping.update`): `self[key] = value` for each pair in turn -/
+def setAll (h : Heap) (c : Cont) : List (K × V) → Heap × Cont
+  | [] => (h, c)
+  | (k, v) :: r => let (h1, c1) := setitem h c k v; setAll h1 c1 r
+
+/-- `clear()`: `dict_clear(self)` drops every dict entry, `self.__items = []` rebinds to a new list -/
+def clear (h : Heap) (_c : Cont) : Heap × Cont :=
+  let (h1, it) := h.allocItems []
+  (h1, ⟨it, []⟩)
+
+/-- `discard(key)`: `del self[key]`, a `KeyError` is swallowed -/
+def discard (h : Heap) (c : Cont) (k : K) : Heap × Cont :=
+  if c.dict.any (fun p => p.1 == k) then delitem h c k else (h, c)
+
 inductive Op
   | append (k : K) (v : V)
   | delitem (k : K)
   | setitem (k : K) (v : V)
   | popLast
+  | extend (ps : List (K × V))
+  | update (ps : List (K × V))
+  | clear
+  | discard (k : K)
   deriving Repr
 
 def step (h : Heap) (c : Cont) : Op → Heap × Cont
@@ -98,6 +121,10 @@ def step (h : Heap) (c : Cont) : Op → Heap × Cont
   | .delitem k => delitem h c k
   | .setitem k v => setitem h c k v
   | .popLast => popLast h c
+  | .extend ps => appendAll h c ps
+  | .update ps => setAll h c ps
+  | .clear => clear h c
+  | .discard k => discard h c k
 
 def run (h : Heap) (c : Cont) : List Op → Heap × Cont
   | [] => (h, c)
